@@ -24,10 +24,15 @@ func main() {
 	shards := fs.Int("shards", 16, "number of trace shards")
 	fam := fs.String("family", "", "value family")
 	only := fs.Int("only", -1, "run only this event id")
+	mode := fs.String("mode", "exact", "exact|vary")
 	vectors := fs.String("vectors", "", "file of TLC-generated vectors (one JSON object per line)")
 	fs.Parse(os.Args[2:])
 	drv.Silence()
 	switch cmd {
+	case "altvalues":
+		runAltValues(*fam, *seed, *tier, *out)
+	case "altreplay":
+		runAltReplay(*fam, *seed, *tier, *vectors, *out, *shards, *only, *mode)
 	case "poolseq":
 		runPoolSeq(*vectors, *out, *shards, *only)
 	case "poolconc":
